@@ -246,3 +246,58 @@ package fs
 //@   at call copier.copyFileInfo: metadata_target: arg3 == target
 //@   at call copyXAttrs: after_metadata: arg0 == target && arg1 == src && cnt(Utimes) > old(cnt(Utimes)) && arg(Utimes, 0) == target && when(Utimes) == clk()
 //@   at call copier.notifyChange: nondir_once: notify && !fi.IsDir() && arg1 == target
+
+// ---------------------------------------------------------------------------
+// mkdir.go
+// ---------------------------------------------------------------------------
+
+// MkdirAll never touches an existing directory; a directory it creates gets the
+// requested owner and then the requested time (no-follow variants)
+//@ func MkdirAll
+//@   property C13 C14 C15
+//@   safety +overflow
+//@   effects Stat StatRes Lstat LstatRes Mkdir MkdirOK ChownerCall Lchown Utimes
+//@   loop 0 invariant i: 0 <= i && i <= len(path)
+//@   loop 1 invariant j: 0 <= j && j <= len(path)
+//@   ensures fresh_result: result0 == nil || fresh(result0)
+//@   ensures stat_first: cnt(Stat) >= old(cnt(Stat)) + 1
+//@   ensures exists_untouched: arg(StatRes, 1) == nil && cnt(Stat) == old(cnt(Stat)) + 1 ==> cnt(Mkdir) == old(cnt(Mkdir)) && cnt(Lchown) == old(cnt(Lchown)) && cnt(Utimes) == old(cnt(Utimes))
+//@   ensures no_time: tm == nil ==> cnt(Utimes) == old(cnt(Utimes))
+//@   ensures no_owner: user == nil ==> cnt(Lchown) == old(cnt(Lchown))
+//@   ensures time_only_created: result1 == nil && cnt(Utimes) > old(cnt(Utimes)) ==> cnt(MkdirOK) > old(cnt(MkdirOK))
+//@   ensures time_after_create: result1 == nil && cnt(Utimes) > old(cnt(Utimes)) ==> when(MkdirOK) < when(Utimes)
+//@   ensures owner_before_time: result1 == nil && cnt(Utimes) > old(cnt(Utimes)) && cnt(Lchown) > old(cnt(Lchown)) ==> when(Lchown) < when(Utimes)
+
+// ---------------------------------------------------------------------------
+// copy.go: destination selection
+// ---------------------------------------------------------------------------
+
+// the rows the statement fixes: a directory lands inside an existing destination
+// under its own name unless directory-contents mode is on; a non-directory lands
+// inside an existing destination directory; otherwise the destination path is
+// used as given. The source is inspected with Lstat, the (root-resolved)
+// destination with Stat.
+//@ func copier.prepareTargetDir
+//@   property C15 C14
+//@   requires c != nil
+//@   effects Stat StatRes Lstat LstatRes Mkdir MkdirOK ChownerCall Lchown Utimes
+//@   ensures src_lstat: cnt(Lstat) >= old(cnt(Lstat)) + 1
+//@   at call os.Lstat#0: source: arg0 == srcFollowed
+//@   at call os.Stat#0: dest: arg0 == destPath && cnt(Lstat) == old(cnt(Lstat)) + 1
+//@   at call MkdirAll: rows: arg0 == ite(copyDirContents && fiSrc.IsDir() && fiDest == nil, ite((!copyDirContents && fiSrc.IsDir() && fiDest != nil) || (!fiSrc.IsDir() && fiDest != nil && fiDest.IsDir()), filepath.Join(destPath, filepath.Base(src)), destPath), filepath.Dir(ite((!copyDirContents && fiSrc.IsDir() && fiDest != nil) || (!fiSrc.IsDir() && fiDest != nil && fiDest.IsDir()), filepath.Join(destPath, filepath.Base(src)), destPath)))
+
+// src and dst arguments are resolved as if their root were "/"
+//@ func rootPath
+//@   property C14
+//@   ensures root: filepath.Join("/", p) == "/" ==> result0 == root && result1 == nil
+//@   ensures follow: filepath.Join("/", p) != "/" && followLinks ==> result0 == fs.RootPath(root, filepath.Join("/", p))
+//@   ensures nofollow: filepath.Join("/", p) != "/" && !followLinks && result1 == nil ==> result0 == filepath.Join(fs.RootPath(root, filepath.Split(filepath.Join("/", p))), filepath.Split#1(filepath.Join("/", p)))
+
+//@ pred specIsWild(c byte) bool = c == '*' || c == '?' || c == '['
+//@ func containsWildcards
+//@   property C15
+//@   safety +overflow
+//@   loop 0 invariant lo: 0 <= i && i <= len(name) + 1
+//@   loop 0 invariant scanned: (forall b int :: 0 <= b && b < len(name) ==> name[b] != '\\') ==> i <= len(name) && (forall k int :: 0 <= k && k < i ==> !specIsWild(name[k]))
+//@   ensures sound: result ==> exists k int :: 0 <= k && k < len(name) && specIsWild(name[k])
+//@   ensures complete_without_escapes: (forall b int :: 0 <= b && b < len(name) ==> name[b] != '\\') && (exists k int :: 0 <= k && k < len(name) && specIsWild(name[k])) ==> result
